@@ -8,6 +8,10 @@ ROOT = os.path.dirname(os.path.dirname(os.path.abspath(__file__)))
 
 # id -> (engine, category, technique, text, note, design_ref)
 CHECKS = {
+    "C08": dict(engine="enum", category="exploration", design_ref="DESIGN.md section 7 C08",
+        technique="exhaustive enumeration: all 2^32 fold inputs; all short byte strings for the sum; per protocol/pseudo-header/payload-length a full sweep of all 65536 values of one 16-bit word through serialization, verification and every single-bit corruption, against an independent exact-arithmetic reference",
+        text="FoldChecksum is compared with the arithmetic definition for all 2^32 accumulator values; ComputeChecksum for all byte strings of length <=2 [3] x 5 initial values plus constant fills up to 70000 bytes against an exact 64-bit sum. For IPv4 header (with/without options), TCP (with/without options), UDP, ICMPv4, GRE over IPv4 and TCP, UDP, ICMPv6 over IPv6 x payload lengths {0,1,2,3,4,5,8,9} x all 65536 values of one 16-bit word (so every checksum outcome incl. 0x0000/0xffff occurs): written bytes equal the reference; the decoded packet verifies as valid with Correct = reference; for 258 [thorough 3857] word values per configuration every bit of every covered non-framing byte (incl. pseudo-header addresses and the checksum field) is flipped and verification must report a mismatch with Correct = reference of the corrupted data (UDP: stored 0 = no checksum).",
+        note="Trusted: the 25-line reference (exact integer sum, end-around carry, RFC 768 zero rule). Bit flips in framing fields are not applied. Jumbogram-sized sums (>128 KiB) are outside the enumerated lengths."),
     "C04": dict(engine="sched", category="model_checking", design_ref="DESIGN.md section 7 C04",
         technique="(a) bounded-exhaustive input x option enumeration against the default decode, (s) exhaustive NewPacket/Dispose/Touch histories with the pool's Get as an explorer choice plus preemption-bounded schedule exploration of concurrent histories, on packet.go compiled against the sync shim",
         text="Part a: every (first layer, input) of the deviation<=1 neighbourhoods and every fixture resized to 0/1/1499/1500/1501/3000/65535 bytes: NoCopy, Pool and NoCopy+Pool decodes (eager and lazy, DSAD on/off) equal the copying decode, PooledPacket iff Pool && !NoCopy && len<=1500, and a packet decoded with copying options is unchanged after every byte of the caller's buffer is complemented. Part s: all histories of depth 6 [7] over New(4 lengths x eager/lazy)/Dispose/Touch with <=3 live packets where Pool.Get may return any previously returned block or a fresh one; 2-3 goroutines running New/Touch/Dispose programs under every schedule with <=3 [4] preemptions, scheduling points before and after every pool operation. Invariant after every operation: undisposed pooled packets have pairwise distinct blocks and still read their original bytes.",
